@@ -313,3 +313,43 @@ Definition pinit : pstate := mkP [] 0 (fun _ => []).
 Inductive preachable : pstate -> Prop :=
 | preach_init : preachable pinit
 | preach_step s s' t ch : preachable s -> pnext_state s t ch = Some s' -> preachable s'.
+
+(* ---- pooled objects carry state (side encoders/decoders: err, ci, calls, symbols, writer ...) ----
+   sync.Pool hands out whatever object was put back last, in whatever state its last user left it (an
+   operation may have aborted inside it).  The discipline of the code: every user resets the object
+   (ResetBytes) before its first use (translator fact side_coder_reset_first), and that reset restores every
+   behaviour-relevant field (C12_fields over Gen/Reset.v).
+   qowner: object -> holder (None = in the pool / not yet made); qtaint: None = initial state, Some t = carries
+   state written by thread t; qready: reset by its holder since it was taken. *)
+Record qstate := mkQ { qowner : nat -> option nat; qnext : nat; qtaint : nat -> option nat; qready : nat -> bool }.
+Inductive qchoice := QGet (o : nat) | QGetNew | QReset (o : nat) | QUse (o : nat) | QPut (o : nat).
+
+Definition owned_by (s : qstate) (o t : nat) : bool :=
+  match qowner s o with Some t' => Nat.eqb t' t | None => false end.
+
+Definition qstep (s : qstate) (t : nat) (ch : qchoice) : option qstate :=
+  match ch with
+  | QGet o =>
+      if (o <? qnext s) && match qowner s o with None => true | Some _ => false end
+      then Some (mkQ (upd (qowner s) o (Some t)) (qnext s) (qtaint s) (upd (qready s) o false)) else None
+  | QGetNew =>
+      Some (mkQ (upd (qowner s) (qnext s) (Some t)) (S (qnext s)) (upd (qtaint s) (qnext s) None) (upd (qready s) (qnext s) false))
+  | QReset o =>
+      if owned_by s o t then Some (mkQ (qowner s) (qnext s) (upd (qtaint s) o None) (upd (qready s) o true)) else None
+  | QUse o =>                                    (* the use reads and writes the object's state; it may abort half-way *)
+      if owned_by s o t && qready s o then Some (mkQ (qowner s) (qnext s) (upd (qtaint s) o (Some t)) (qready s)) else None
+  | QPut o =>                                    (* back to the pool as it is: nobody cleans it on the way in *)
+      if owned_by s o t then Some (mkQ (upd (qowner s) o None) (qnext s) (qtaint s) (upd (qready s) o false)) else None
+  end.
+
+Definition qinit : qstate := mkQ (fun _ => None) 0 (fun _ => None) (fun _ => false).
+
+Inductive qreachable : qstate -> Prop :=
+| qreach_init : qreachable qinit
+| qreach_step s s' t ch : qreachable s -> qstep s t ch = Some s' -> qreachable s'.
+
+Fixpoint qrun (s : qstate) (sched : list (nat * qchoice)) : option qstate :=
+  match sched with
+  | [] => Some s
+  | (t, ch) :: r => match qstep s t ch with Some s' => qrun s' r | None => None end
+  end.
